@@ -70,13 +70,13 @@ def q_bool(b):
 def q_list(items, ty=None):
     items = list(items)
     if not items:
-        return "(@nil %s)" % ty if ty else "[]"
+        return "(@nil (%s))" % ty if ty else "[]"
     return "[" + "; ".join(items) + "]"
 
 
 def q_opt(x, f=lambda v: v, ty=None):
     if x is None:
-        return "(@None %s)" % ty if ty else "None"
+        return "(@None (%s))" % ty if ty else "None"
     return "(Some %s)" % f(x)
 
 
@@ -408,7 +408,7 @@ class Check:
         replay = None
         if self.oracle_failures:
             replay = self.write_replay({"kind": "oracle", "property": self.pid,
-                                        "failures": self.oracle_failures[:5],
+                                        "failures": self.oracle_failures[:400],
                                         "n_failures": len(self.oracle_failures)})
             lines.append("VIOLATION property=%s replay=%s" % (self.pid, replay))
             rc = 1
